@@ -49,7 +49,7 @@ CHECKS = {
     ),
     "C05": dict(
         category="exploration",
-        technique="runtime monitoring: metamorphic differential monitor (original vs rewritten sources through the real pipeline, canonical documents compared) over random rewrite sequences",
+        technique="runtime monitoring: metamorphic differential monitor (original vs rewritten sources through the real pipeline, canonical documents compared) over random rewrite sequences, one in three starting from the tight print",
         text="Accepted generated programs and accepted mutants are rewritten by random sequences of the property's meaning-preserving steps (parenthesise, name/inline, abstract into a function, rename binders, permute, trivia, move into a module); every intermediate program must still be accepted and emit the same canonical document; hand-written corpus programs get random blanks, newlines and comments between any two tokens.",
         note="Side conditions make each step meaning-preserving in the language itself (DESIGN.md C05, section 8). Mutants only get the purely syntactic rewrites because of two open order-dependence findings.",
         design="5/C05",
@@ -70,7 +70,7 @@ CHECKS = {
     ),
     "C10": dict(
         category="exploration",
-        technique="runtime monitoring: offline trace checker over the recorded call log (is_valid/load/parse/compile with logical sequence numbers) of a recording Loader delegating to the real parse/compile, against the generator's import graph (flat and two-directory layouts); exhaustive over small graphs; plus a located-error monitor over recorded language-server sessions (the error the library locates must be published for the document of its module with exactly the range of its span in the client's text)",
+        technique="runtime monitoring: offline trace checker over the recorded call log (is_valid/load/parse/compile with logical sequence numbers) of a recording Loader delegating to the real parse/compile, against the generator's import graph (flat and two-directory layouts); exhaustive over small graphs; exact location of missing-import errors; deep graphs (60k/150k modules) loaded on a 2 MiB thread under the pool's abort attribution; plus a located-error monitor over recorded language-server sessions (the error the library locates must be published for the document of its module with exactly the range of its span in the client's text)",
         text="All import digraphs on up to 3 (thorough 4) modules and random graphs on up to 8 with aliased spellings, duplicate use lines and missing targets are loaded through a recording in-memory Loader; the log must show each reachable module loaded, parsed and compiled exactly once and after its imports, cycles and missing imports must be the right errors, and permuted/re-spelled use lines must not change the result.",
         note="Module bodies use imported values and functions so a wrong compile order is also observable as a crash or wrong verdict.",
         design="5/C10",
@@ -84,7 +84,7 @@ CHECKS = {
     ),
     "C06": dict(
         category="exploration",
-        technique="runtime monitoring: differential monitor across N fresh oal-cli processes (different hash seeds each) with byte comparison of the target files (half of the processes started from another working directory; near-colliding paths and operation ids), and across repeated in-process compilations incl. a second thread",
+        technique="runtime monitoring: differential monitor across N fresh oal-cli processes (different hash seeds each) with byte comparison of the target files (half of the processes started from another working directory; near-colliding paths and operation ids, header names differing by case, existing targets that nearly hold the document to come), and across repeated in-process compilations incl. a second thread",
         text="Generated programs biased to what can leak map order are compiled by the real CLI in 8 (thorough 32) fresh processes and the YAML bytes compared; in-process, A, B, A and A on a second thread must give identical bytes.",
         note="Byte equality is the oracle; nothing is normalised.",
         design="5/C06",
@@ -98,14 +98,14 @@ CHECKS = {
     ),
     "C14": dict(
         category="exploration",
-        technique="runtime monitoring: field-wise differential monitor of the merged output against the base (as the tool's model represents it, and raw when the model round-trips it) and against the base-less output; a slice through the real oal-cli -b regenerating an existing, longer target",
+        technique="runtime monitoring: field-wise differential monitor of the merged output against the base (as the tool's model represents it, and raw when the model round-trips it) and against the base-less output; a slice through the real oal-cli -b regenerating an existing, longer target; half of the bases open (carried-over components referring to base schemas, empty mandatory strings)",
         text="Generated base documents over the OpenAPI object model combined with generated programs: everything outside paths and components.schemas must equal the base, paths and schema components must equal the base-less output up to generated names; the merged document is also walked by C03's validator.",
         note="Bases are closed w.r.t. what survives the merge. openapiv3's model is the trusted representation at level 1.",
         design="5/C14",
     ),
     "C15": dict(
         category="exploration",
-        technique="runtime monitoring: offline comparison of two recorded JSON-RPC sessions of the real oal-lsp (history server vs fresh server handed the final texts), client texts from an independent UTF-16 document model, liveness polling, logical (request/response) synchronisation; plus a server-independent located-error monitor at every checkpoint",
+        technique="runtime monitoring: offline comparison of two recorded JSON-RPC sessions of the real oal-lsp (history server vs fresh server handed the final texts), client texts from an independent UTF-16 document model, liveness polling, logical (request/response) synchronisation; plus a server-independent located-error monitor at every checkpoint; directed history families (single-module, library-only edits, main module switching imports) besides the random ones",
         text="Random protocol-valid histories of didOpen/didChange/didClose with full and incremental changes at arbitrary UTF-16 ranges, bursts and interleaved requests over a 4-file workspace; at checkpoints the last published diagnostics per URI and the answers to definition/references/prepareRename/rename probes must equal those of a fresh server.",
         note="Files on disk stay fixed during a history. Timing never decides a verdict.",
         design="5/C15",
@@ -119,7 +119,7 @@ CHECKS = {
     ),
     "C18": dict(
         category="exploration",
-        technique="runtime monitoring: end-to-end monitor of prepareRename/rename against the real oal-lsp with client-side edit application and compile-and-compare of both versions through the real oal-cli; liveness monitor; half of the sessions after unsaved drafts of every module were opened, queried and closed",
+        technique="runtime monitoring: end-to-end monitor of prepareRename/rename against the real oal-lsp with client-side edit application and compile-and-compare of both versions through the real oal-cli; liveness monitor; half of the sessions after unsaved drafts of every module were opened, edited, queried and closed; some with older files on disk than the client opens",
         text="At the start and middle of every identifier occurrence (and random positions) of generated workspaces, wherever prepareRename offers a range the identifier is renamed to a fresh name; edits must not overlap and must each replace exactly the old name, the edited sources must compile to the same canonical document, and the server must stay alive.",
         note="For @names the expected document is the original with that component renamed.",
         design="5/C18",
